@@ -246,6 +246,14 @@ def main(argv):
                 pr = subprocess.run(cmd, shell=True, cwd=VERIF, capture_output=True, text=True, timeout=b.get("timeout", 1800))
                 ent = dict(name=b["name"], cmd=cmd, bound=b["bound"], stands_in_for=b["stands_in_for"], rc=pr.returncode,
                            output=pr.stdout.strip()[-3000:], stderr=pr.stderr[-500:])
+                # reachability of the oracle: a self-test command MUST report a finding (exit 1), otherwise the
+                # bounded check proves nothing and is reported as unable to run
+                if b.get("selftest_cmd") and ent["rc"] == 0:
+                    st = subprocess.run(b["selftest_cmd"], shell=True, cwd=VERIF, capture_output=True, text=True, timeout=b.get("timeout", 1800))
+                    ent["selftest"] = dict(cmd=b["selftest_cmd"], rc=st.returncode, expected_rc=1)
+                    if st.returncode != 1:
+                        ent["rc"] = 2
+                        ent["stderr"] = "oracle self-test did not report its planted finding (rc=%s): %s" % (st.returncode, st.stdout[-200:])
             except Exception as e:
                 ent = dict(name=b["name"], cmd=cmd, bound=b["bound"], stands_in_for=b["stands_in_for"], rc=2, output="", stderr=str(e))
             bounded_results.append(ent)
